@@ -16,7 +16,11 @@ Theorem C26_refines : forall fnm ep_langs ep_gens ops,
 Proof. exact refines. Qed.
 Print Assumptions C26_refines.
 
-(* Laws of the specification machine (hence, by C26_refines, of every reachable state). *)
+(* Laws of the specification machine (hence, by C26_refines, of every reachable state).
+   [slfail s] = "the entry points contain a duplicate name and its registration error has not been
+   reported since the last clearing": the first operation that consults the language map reports
+   it (C26_entry_point_duplicate_reported_once); laws about answers of the map assume it is not
+   pending. *)
 Theorem C26_lookup_case_insensitive : forall fnm epl epg s n n', lower n = lower n' ->
   snd (sstep fnm epl epg s (LangDescription n)) = snd (sstep fnm epl epg s (LangDescription n')).
 Proof. exact lang_lookup_ci. Qed.
@@ -40,30 +44,44 @@ Theorem C26_duplicate_refused : forall fnm epl epg s d d',
 Proof. exact reg_lang_dup_refused. Qed.
 Print Assumptions C26_duplicate_refused.
 
-Theorem C26_refused_changes_nothing : forall fnm epl epg s d,
+Theorem C26_refused_changes_nothing : forall fnm epl epg s d, slfail s = false ->
   snd (sstep fnm epl epg s (RegLang d)) = RErr -> fst (sstep fnm epl epg s (RegLang d)) = s.
 Proof. exact reg_lang_refused_keeps_state. Qed.
 Print Assumptions C26_refused_changes_nothing.
 
-Theorem C26_other_names_unaffected : forall fnm epl epg s d n, lower n <> lower (lname d) ->
+Theorem C26_other_names_unaffected : forall fnm epl epg s d n, slfail s = false -> lower n <> lower (lname d) ->
   snd (sstep fnm epl epg (fst (sstep fnm epl epg s (RegLang d))) (LangDescription n))
   = snd (sstep fnm epl epg s (LangDescription n)).
 Proof. exact reg_lang_other_unaffected. Qed.
 Print Assumptions C26_other_names_unaffected.
 
 Theorem C26_entry_points_survive_clear : forall fnm epl epg s d,
+  load_langs_bad epl = false ->
   lookup (lower (lname d)) (load_langs epl) = Some d ->
   snd (sstep fnm epl epg (fst (sstep fnm epl epg s ClearLangs)) (LangDescription (lname d))) = RLang d.
 Proof. exact entry_point_lang_found_after_clear. Qed.
 Print Assumptions C26_entry_points_survive_clear.
 
-Theorem C26_languages_for_file_exact : forall fnm epl epg s f d,
-  In d (match snd (sstep fnm epl epg s (LangsForFile f)) with RLangs l => l | _ => [] end) <->
-  In d (map snd (slangs s)) /\ matches fnm f d = true.
+(* discovery of entry points whose names collide (case-insensitively) raises TextXRegistrationError
+   out of the first operation that consults the language map after start / clearing, whatever that
+   operation is; the map then holds the entry points before the duplicate and the error is not
+   reported again until the next clearing *)
+Theorem C26_entry_point_duplicate_reported_once : forall fnm epl epg s o n,
+  load_langs_bad epl = true -> sneeds_l o [] = true ->
+  let s1 := fst (sstep fnm epl epg s ClearLangs) in
+  snd (sstep fnm epl epg s1 o) = RErr /\
+  snd (sstep fnm epl epg (fst (sstep fnm epl epg s1 o)) (LangDescription n))
+    = match lookup (lower n) (load_langs epl) with Some d => RLang d | None => RErr end.
+Proof. exact entry_point_duplicate_reported_once. Qed.
+Print Assumptions C26_entry_point_duplicate_reported_once.
+
+Theorem C26_languages_for_file_exact : forall fnm epl epg s f d, slfail s = false ->
+  (In d (match snd (sstep fnm epl epg s (LangsForFile f)) with RLangs l => l | _ => [] end) <->
+   In d (map snd (slangs s)) /\ matches fnm f d = true).
 Proof. exact langs_for_file_exact. Qed.
 Print Assumptions C26_languages_for_file_exact.
 
-Theorem C26_language_for_file_exactly_one : forall fnm epl epg s f,
+Theorem C26_language_for_file_exactly_one : forall fnm epl epg s f, slfail s = false ->
   (forall d, snd (sstep fnm epl epg s (LangForFile f)) = RLang d <-> langs_for_file fnm f (slangs s) = [d]) /\
   (length (langs_for_file fnm f (slangs s)) <> 1 -> snd (sstep fnm epl epg s (LangForFile f)) = RErr).
 Proof. exact lang_for_file_exactly_one. Qed.
@@ -74,13 +92,13 @@ Theorem C26_cached_without_arguments : forall fnm epl epg s n m,
 Proof. exact mm_cached_returned. Qed.
 Print Assumptions C26_cached_without_arguments.
 
-Theorem C26_result_is_cached : forall fnm epl epg s n kw m n',
+Theorem C26_result_is_cached : forall fnm epl epg s n kw m n', slfail s = false ->
   snd (sstep fnm epl epg s (MMForLang n kw)) = RMM m -> lower n' = lower n ->
   snd (sstep fnm epl epg (fst (sstep fnm epl epg s (MMForLang n kw))) (MMForLang n' false)) = RMM m.
 Proof. exact mm_then_cached. Qed.
 Print Assumptions C26_result_is_cached.
 
-Theorem C26_factory_with_arguments_fresh : forall fnm epl epg s n d f,
+Theorem C26_factory_with_arguments_fresh : forall fnm epl epg s n d f, slfail s = false ->
   lookup (lower n) (slangs s) = Some d -> lsrc d = Factory f ->
   snd (sstep fnm epl epg s (MMForLang n true)) = RMM (MMFresh f (sserial s) true) /\
   sserial (fst (sstep fnm epl epg s (MMForLang n true))) = S (sserial s).
@@ -97,3 +115,12 @@ Example C26_nonvacuous :
   = [RUnit; RErr; RMM (MMFresh 7 0 false); RMM (MMFresh 7 0 false); RMM (MMFresh 7 1 true); RUnit; RErr].
 Proof. vm_compute. reflexivity. Qed.
 Print Assumptions C26_nonvacuous.
+
+(* non-vacuity with a duplicate among the entry points: Ep, EP (duplicate), Late *)
+Example C26_nonvacuous_duplicate :
+  let ep n t := {| lname := n; lpattern := None; lsrc := Instance t; ltag := t |} in
+  run (fun _ _ => true) [ep [69;112]%N 1; ep [69;80]%N 2; ep [76]%N 3] [] init
+      [LangDescription [101;112]%N; LangDescription [101;112]%N; LangDescription [108]%N; ClearLangs; LangDescs; LangDescs]
+  = [RErr; RLang (ep [69;112]%N 1); RErr; RUnit; RErr; RLangs [ep [69;112]%N 1]].
+Proof. vm_compute. reflexivity. Qed.
+Print Assumptions C26_nonvacuous_duplicate.
